@@ -8,7 +8,8 @@ THEOREMS = ["Cspuz.C09.C09_exact", "Cspuz.C09.C09_total"]
 def correspond(ctx):
     ctx.extra["rule"] = ("random loop-free multigraphs n<=6 (parallel edges, isolated vertices), edge flags as variables / "
                          "negations / compound expressions / constants; program emitted by the real active_edges_acyclic vs the "
-                         "Lean model's program (constraint multiset); distinct by call arguments")
+                         "Lean model's program (constraint multiset); distinct by call arguments"
+                         " + a handful of deterministic medium / LARGE instances per family (graphs.big_graphs: 40, 70 and 258..319 vertices -- vertex ids beyond CPython's small-int cache, more than 32 / 64 vertices --, boards up to 16x17); about half of the Graph objects are observed part-way through construction (accessors read, every graph constraint posted once on a throw-away Solver) before the remaining edges are added")
     graphcorr.run_cases(ctx, graphcorr.case_acyclic, ctx.n(400, 6000), "acyclic", bigs=graphcorr.graph_bigs())
     if not ctx.quick():
         for f in search(ctx, None, budget=40):
@@ -58,21 +59,6 @@ def _check_patterns(n, edges, negate, patterns):
 
 def search(ctx, why, budget=None):
     found = {}
-    # medium / LARGE graphs: cycles among the highest vertex ids (>= 257), maximal forests, forest + one edge
-    for idx, (n, edges) in enumerate(graphs.big_graphs()):
-        negate = idx % 3 == 2
-        try:
-            bad = _check_patterns(n, edges, negate, graphs.edge_patterns(n, edges))
-        except Exception as e:
-            bad = ("exception", None, core.err_name(e), str(e)[:200])
-        ctx.count("search:acyclic:big")
-        if bad and "big" not in found:
-            found["big"] = Finding(
-                "acyclic:large-graph",
-                f"active_edges_acyclic on a graph with {n} vertices and {len(edges)} edges (edges {edges[:4]} ... {edges[-6:]}), active edges"
-                f"{' (flags given negated)' if negate else ''} ({bad[0]}) = "
-                f"{bad[1] if bad[1] is None or len(bad[1]) <= 14 else str(bad[1][:6]) + ' ... ' + str(bad[1][-6:])}: satisfiable={bad[2]} expected {bad[3]}",
-                {"big": True, "n": n, "edges": edges, "negate": negate, "pattern_name": bad[0], "active_edges": bad[1]})
     for (n, edges) in graphs.small_graphs(ctx.rng, budget or ctx.n(30, 60), 5):
         if len(edges) > 9 or any(a == b for a, b in edges):
             continue
@@ -89,6 +75,21 @@ def search(ctx, why, budget=None):
                                      f"active_edges_acyclic on n={n} edges={edges} flags{'(negated)' if negate else ''}={bad[0]}: satisfiable={bad[1]} expected {bad[2]}"
                                      + graphs.history_note(n, edges),
                                      {"n": n, "edges": edges, "negate": negate, "pattern": bad[0], "got": bad[1], "want": bad[2]})
+    # medium / LARGE graphs: cycles among the highest vertex ids (>= 257), maximal forests, forest + one edge
+    for idx, (n, edges) in enumerate(graphs.big_graphs()):
+        negate = idx % 3 == 2
+        try:
+            bad = _check_patterns(n, edges, negate, graphs.edge_patterns(n, edges))
+        except Exception as e:
+            bad = ("exception", None, core.err_name(e), str(e)[:200])
+        ctx.count("search:acyclic:big")
+        if bad and "big" not in found:
+            found["big"] = Finding(
+                "acyclic:large-graph",
+                f"active_edges_acyclic on a graph with {n} vertices and {len(edges)} edges (edges {edges[:4]} ... {edges[-6:]}), active edges"
+                f"{' (flags given negated)' if negate else ''} ({bad[0]}) = "
+                f"{bad[1] if bad[1] is None or len(bad[1]) <= 14 else str(bad[1][:6]) + ' ... ' + str(bad[1][-6:])}: satisfiable={bad[2]} expected {bad[3]}" + graphs.history_note(n, edges),
+                {"big": True, "n": n, "edges": edges, "negate": negate, "pattern_name": bad[0], "active_edges": bad[1]})
     return list(found.values())
 
 
